@@ -117,6 +117,8 @@ def main():
                     out.append({"tag": step.get("tag"), "hash": "refused: " + type(e).__name__})
             elif op == "add_line":
                 nets[step["id"]].add_reaction((step["line"], step["fmt"]))
+            elif op == "remove":
+                nets[step["id"]].remove_reaction(step["index"])
             elif op == "set_rate_modifier":
                 nets[step["id"]].rate_modifier = {int(k): v for k, v in step["values"].items()}
             elif op == "query":
